@@ -229,7 +229,9 @@ MANIFEST_TEXT["C01"] = dict(
          "Tied to the code by running every program natively and tunnelled (real sender, serde_json, real receiver) on two StrictHosts.",
     note=_RECV_NOTE + "Also environment: the `tracing` front end at subscriber-call level (enabled before new_span/event, registration before first use, child_of(None)=new_root).",
     technique="Lean 4 proof (simulation native host vs sender∘receiver over the program's call log) + differential correspondence (native vs tunnelled)")
-PROPS["C13"] = dict(suites=[("prog", {Q: 400, T: 30000})], rule=_PROG_RULE + "; every case runs under a host level filter (0..4) on both the native and the tunnelled host")
+PROPS["C13"] = dict(suites=[("prog", {Q: 400, T: 30000}), ("receiver", {Q: 300, T: 20000})], rule=_PROG_RULE + "; every case runs under a host level filter (0..4) on both the native and the tunnelled host; "
+    "receiver suite, C13 cases: well-formed streams with call sites of all levels under a host level filter (0..4), cut by persist keep / lose "
+    "at quiescent and non-quiescent points (no valid event may be rejected, every event the host enables is delivered)")
 PROPS["C09"] = dict(suites=[("receiver", {Q: 150, T: 5000})],
     rule="receiver suite, C09 cases: a base description (0/3/8/64 fields) and 11 variants differing in exactly one attribute (kind, level, "
          "name incl. empty, target, module path presence, file incl. Unicode, line, field added / order / one name), announced "
@@ -398,6 +400,15 @@ def _proj_prog(prop):
 for _p in ["C01", "C12", "C13"]:
     PROPS[_p]["project"] = _proj_prog(_p)
 
+
+def _proj_c13(suite, lines):
+    if suite == "receiver":                    # acceptance only (delivery is an implementation-side oracle)
+        return [l for l in lines if l.startswith("r ")]
+    return _proj_prog("C13")(suite, lines)
+
+
+PROPS["C13"]["project"] = _proj_c13
+
 PROPS["C19"] = dict(suites=[("capconc", {Q: 60, T: 1500})],
     rule="capconc suite: 2-3 threads under forced schedules (one operation at a time executed by the designated real thread; random "
          "interleavings of per-thread programs of up to 8 ops, with 0-2 shared spans created by the main thread that threads may enter, "
@@ -445,9 +456,9 @@ def _c17_post(prop, results, root):
             continue
         text = docs.read_text()
         p = subprocess.run([str(drv), "forest"], input=text, capture_output=True, text=True)
-        impl = [l for l in text.splitlines() if l.startswith(("Q ", "F begin", "F end"))]
+        impl = [l for l in text.splitlines() if l.startswith(("Q ", "X ", "F begin", "F end"))]
         model = p.stdout.splitlines()
-        n += sum(1 for l in impl if l.startswith("Q "))
+        n += sum(1 for l in impl if l.startswith(("Q ", "X ")))
         if impl != model:
             k = next((i for i, (a, b) in enumerate(zip(impl, model)) if a != b), min(len(impl), len(model)))
             fails.append(f"forest query differs: real API `{impl[k] if k < len(impl) else '<end>'}` vs model on the same links `{model[k] if k < len(model) else '<end>'}`")
